@@ -214,6 +214,26 @@ func init() {
 		wp, wt, bp, bt := ai.CountThreats(&c, p)
 		return strconv.Itoa(wp) + " " + strconv.Itoa(wt) + " " + strconv.Itoa(bp) + " " + strconv.Itoa(bt)
 	}
+	// the hypotheses of the C19 theorem, computed from the raw fields on the Go side
+	opTable["c19hyp"] = func(s *Session, a []string) string {
+		r := decPos(a[0]).VerifRaw()
+		n := r.Size
+		if n < 3 || n > 8 {
+			return "0"
+		}
+		mask := ^uint64(0)
+		if n*n < 64 {
+			mask = (uint64(1) << uint(n*n)) - 1
+		}
+		ok := r.White&^mask == 0 && r.Black&^mask == 0 && r.White&r.Black == 0 &&
+			(r.Standing|r.Caps)&^(r.White|r.Black) == 0 && r.Standing&r.Caps == 0
+		for i := 0; i < 64; i++ {
+			if (r.White|r.Black)>>uint(i)&1 == 1 && (i >= len(r.Height) || r.Height[i] < 1) {
+				ok = false
+			}
+		}
+		return strconv.Itoa(b2i(ok))
+	}
 	opTable["threatreal"] = func(s *Session, a []string) string { return threatReal(decPos(a[0])) }
 	opTable["sthreatreal"] = opTable["threatreal"]
 	// is there a one-ply road win at all (for the under-count statistics and as a tie on win detection)
